@@ -1,5 +1,6 @@
 SPECIFICATION Spec
 CONSTANTS
+  GridLevel = 0
   Chunks = 64
 INVARIANTS
   TypeSound
